@@ -229,57 +229,71 @@ def resubmitExits (e : Engine M) (r : Nat) (isStop : Bool) (rows : Rows) : Engin
     let orderPrice := if temp = some row.2 then price else row.2
     brokerSubmit e sym (Jesse.Gen.reducePositionAt row.1 orderPrice price (posTypeOf e sym)) (some via)) e1
 
+/-- the entry part of `_detect_and_handle_entry_and_exit_modifications` (position open) -/
+def dmEntries (e : Engine M) (r : Nat) : Engine M :=
+  let sym := (routeOf e r).sym
+  let st := stratOf e r
+  if (posOf e sym).qty > 0 then
+    (if ¬ validRows (fmt st.decl.buy) then fail e .InvalidStrategy
+     else if st.shadow.buy.isNone ∨ fmt st.decl.buy ≠ fmt st.shadow.buy then
+      let e' := setStrat e r (fun s => { s with shadow := { s.shadow with buy := some (fmt s.decl.buy) },
+                                                decl := { s.decl with buy := some (fmt s.decl.buy) } })
+      let e'' := (entryOrders e' sym).foldl (fun e id => cancelOrder e id) e'
+      submitEntries e'' r true (fmt st.decl.buy)
+     else setStrat e r (fun s => { s with decl := { s.decl with buy := some (fmt s.decl.buy) } }))
+  else
+    (if ¬ validRows (fmt st.decl.sell) then fail e .InvalidStrategy
+     else if st.shadow.sell.isNone ∨ fmt st.decl.sell ≠ fmt st.shadow.sell then
+      let e' := setStrat e r (fun s => { s with shadow := { s.shadow with sell := some (fmt s.decl.sell) },
+                                                decl := { s.decl with sell := some (fmt s.decl.sell) } })
+      let e'' := (entryOrders e' sym).foldl (fun e id => cancelOrder e id) e'
+      submitEntries e'' r false (fmt st.decl.sell)
+     else setStrat e r (fun s => { s with decl := { s.decl with sell := some (fmt s.decl.sell) } }))
+
+/-- the stop-loss part -/
+def dmStop (e1 : Engine M) (r : Nat) : Engine M :=
+  let sym := (routeOf e1 r).sym
+  let st1 := stratOf e1 r
+  if (posOf e1 sym).qty ≠ 0 ∧ st1.decl.stopLoss.isSome then
+    (if ¬ validRows (fmt st1.decl.stopLoss) then fail e1 .InvalidStrategy
+     else if fmt st1.decl.stopLoss ≠ fmt st1.shadow.stopLoss ∨ st1.shadow.stopLoss.isNone then
+      let e' := setStrat e1 r (fun s => { s with shadow := { s.shadow with stopLoss := s.decl.stopLoss } })
+      resubmitExits e' r true (fmt st1.decl.stopLoss)
+     else e1)
+  else e1
+
+/-- the take-profit part -/
+def dmTake (e2 : Engine M) (r : Nat) : Engine M :=
+  let sym := (routeOf e2 r).sym
+  let st2 := stratOf e2 r
+  if (posOf e2 sym).qty ≠ 0 ∧ st2.decl.takeProfit.isSome then
+    (if ¬ validRows (fmt st2.decl.takeProfit) then fail e2 .InvalidStrategy
+     else if fmt st2.decl.takeProfit ≠ fmt st2.shadow.takeProfit ∨ st2.shadow.takeProfit.isNone then
+      let e' := setStrat e2 r (fun s => { s with shadow := { s.shadow with takeProfit := s.decl.takeProfit } })
+      resubmitExits e' r false (fmt st2.decl.takeProfit)
+     else e2)
+  else e2
+
 /-- `_detect_and_handle_entry_and_exit_modifications` -/
 def detectModifications (e : Engine M) (r : Nat) : Engine M :=
   if e.err.isSome then e else
   let sym := (routeOf e r).sym
   if (posOf e sym).qty = 0 then e else
-  let st := stratOf e r
-  -- entries
-  let e1 :=
-    if (posOf e sym).qty > 0 then
-      (if ¬ validRows (fmt st.decl.buy) then fail e .InvalidStrategy
-       else if st.shadow.buy.isNone ∨ fmt st.decl.buy ≠ fmt st.shadow.buy then
-        let e' := setStrat e r (fun s => { s with shadow := { s.shadow with buy := some (fmt s.decl.buy) },
-                                                  decl := { s.decl with buy := some (fmt s.decl.buy) } })
-        let e'' := (entryOrders e' sym).foldl (fun e id => cancelOrder e id) e'
-        submitEntries e'' r true (fmt st.decl.buy)
-       else setStrat e r (fun s => { s with decl := { s.decl with buy := some (fmt s.decl.buy) } }))
-    else
-      (if ¬ validRows (fmt st.decl.sell) then fail e .InvalidStrategy
-       else if st.shadow.sell.isNone ∨ fmt st.decl.sell ≠ fmt st.shadow.sell then
-        let e' := setStrat e r (fun s => { s with shadow := { s.shadow with sell := some (fmt s.decl.sell) },
-                                                  decl := { s.decl with sell := some (fmt s.decl.sell) } })
-        let e'' := (entryOrders e' sym).foldl (fun e id => cancelOrder e id) e'
-        submitEntries e'' r false (fmt st.decl.sell)
-       else setStrat e r (fun s => { s with decl := { s.decl with sell := some (fmt s.decl.sell) } }))
+  let e1 := dmEntries e r
   if e1.err.isSome then e1 else
-  -- stop-loss
-  let st1 := stratOf e1 r
-  let e2 :=
-    if (posOf e1 sym).qty ≠ 0 ∧ st1.decl.stopLoss.isSome then
-      (if ¬ validRows (fmt st1.decl.stopLoss) then fail e1 .InvalidStrategy
-       else if fmt st1.decl.stopLoss ≠ fmt st1.shadow.stopLoss ∨ st1.shadow.stopLoss.isNone then
-        let e' := setStrat e1 r (fun s => { s with shadow := { s.shadow with stopLoss := s.decl.stopLoss } })
-        resubmitExits e' r true (fmt st1.decl.stopLoss)
-       else e1)
-    else e1
+  let e2 := dmStop e1 r
   if e2.err.isSome then e2 else
-  let st2 := stratOf e2 r
-  let e3 :=
-    if (posOf e2 sym).qty ≠ 0 ∧ st2.decl.takeProfit.isSome then
-      (if ¬ validRows (fmt st2.decl.takeProfit) then fail e2 .InvalidStrategy
-       else if fmt st2.decl.takeProfit ≠ fmt st2.shadow.takeProfit ∨ st2.shadow.takeProfit.isNone then
-        let e' := setStrat e2 r (fun s => { s with shadow := { s.shadow with takeProfit := s.decl.takeProfit } })
-        resubmitExits e' r false (fmt st2.decl.takeProfit)
-       else e2)
-    else e2
+  let e3 := dmTake e2 r
   if e3.err.isSome then e3 else
   let st3 := stratOf e3 r
   if (posOf e3 sym).qty ≠ 0 ∧ st3.decl.stopLoss.isSome ∧ st3.decl.takeProfit.isSome ∧
       fmt st3.decl.stopLoss = fmt st3.decl.takeProfit ∧ (fmt st3.decl.stopLoss).length > 0 then
     fail e3 .InvalidStrategy
   else e3
+
+/-- `_broadcast`: the other routes re-check their declarations -/
+def broadcast (e : Engine M) (r : Nat) : Engine M :=
+  (List.range e.cfg.routes.length).foldl (fun e r' => if r' = r then e else detectModifications e r') e
 
 /-- apply a user hook that may rewrite the declarations -/
 def runHook (e : Engine M) (r : Nat) (name : String) (h : M → Decl → M × Decl) : Engine M :=
@@ -306,38 +320,40 @@ def executeCancel (e : Engine M) (r : Nat) : Engine M :=
   let e2 := { e1 with storage := upd e1.storage sym (fun _ => []) }
   let e3 := resetStrategy e2 r
   -- _broadcast('route-canceled'): other strategies re-check their declarations
-  let e4 := (List.range e3.cfg.routes.length).foldl (fun e r' => if r' = r then e else detectModifications e r') e3
+  let e4 := broadcast e3 r
   logE e4 (Event.hook r "on_cancel" (stratOf e r).index (priceOf e r) 0 (posOf e (routeOf e r).sym).pnl)
+
+/-- the exit orders `_on_open_position` submits for the rows declared in go_long / go_short -/
+def openExitRows (e : Engine M) (r : Nat) (rows : Rows) (isStop : Bool) : Engine M :=
+  let sym := (routeOf e r).sym
+  rows.foldl (fun e row =>
+    if e.err.isSome then e else
+    let p := posOf e sym
+    let entry := p.entry.getD 0
+    let cur := p.current.getD 0
+    let wrongSide := if isStop then (if p.qty > 0 then row.2 ≥ entry else row.2 ≤ entry)
+                     else (if p.qty > 0 then row.2 ≤ entry else row.2 ≥ entry)
+    let via := if isStop then Via.stopLoss else Via.takeProfit
+    if p.qty ≠ 0 ∧ wrongSide then
+      brokerSubmit e sym (if p.qty > 0 then Jesse.Gen.sellAtMarket row.1 cur else Jesse.Gen.buyAtMarket row.1 cur) (some via)
+    else
+      brokerSubmit e sym (Jesse.Gen.reducePositionAt row.1 row.2 (priceOf e r) (posTypeOf e sym)) (some via)) e
 
 /-- `_on_open_position` -/
 def onOpenPosition (e : Engine M) (r : Nat) (oid : Nat) : Engine M :=
   if e.err.isSome then e else
-  let sym := (routeOf e r).sym
   let e0 := setStrat e r (fun s => { s with increased := 1 })
-  let e0 := (List.range e0.cfg.routes.length).foldl (fun e r' => if r' = r then e else detectModifications e r') e0
+  let e0 := broadcast e0 r
   let st := stratOf e0 r
-  let exitRows (e : Engine M) (rows : Rows) (isStop : Bool) : Engine M :=
-    rows.foldl (fun e row =>
-      if e.err.isSome then e else
-      let p := posOf e sym
-      let entry := p.entry.getD 0
-      let cur := p.current.getD 0
-      let wrongSide := if isStop then (if p.qty > 0 then row.2 ≥ entry else row.2 ≤ entry)
-                       else (if p.qty > 0 then row.2 ≤ entry else row.2 ≥ entry)
-      let via := if isStop then Via.stopLoss else Via.takeProfit
-      if p.qty ≠ 0 ∧ wrongSide then
-        brokerSubmit e sym (if p.qty > 0 then Jesse.Gen.sellAtMarket row.1 cur else Jesse.Gen.buyAtMarket row.1 cur) (some via)
-      else
-        brokerSubmit e sym (Jesse.Gen.reducePositionAt row.1 row.2 (priceOf e r) (posTypeOf e sym)) (some via)) e
-  let e1 := if st.decl.stopLoss.isSome then exitRows e0 (fmt st.shadow.stopLoss) true else e0
-  let e2 := if st.decl.takeProfit.isSome then exitRows e1 (fmt st.shadow.takeProfit) false else e1
+  let e1 := if st.decl.stopLoss.isSome then openExitRows e0 r (fmt st.shadow.stopLoss) true else e0
+  let e2 := if st.decl.takeProfit.isSome then openExitRows e1 r (fmt st.shadow.takeProfit) false else e1
   let e3 := runHook e2 r "on_open_position" (u.onOpen e2 r oid)
   detectModifications e3 r
 
 /-- `_on_close_position` -/
 def onClosePosition (e : Engine M) (r : Nat) (oid : Nat) : Engine M :=
   if e.err.isSome then e else
-  let e0 := (List.range e.cfg.routes.length).foldl (fun e r' => if r' = r then e else detectModifications e r') e
+  let e0 := broadcast e r
   let e1 := executeCancel e0 r
   let e2 := runHook e1 r "on_close_position" (u.onClose e1 r oid)
   detectModifications e2 r
@@ -345,14 +361,14 @@ def onClosePosition (e : Engine M) (r : Nat) (oid : Nat) : Engine M :=
 def onIncreasedPosition (e : Engine M) (r : Nat) (oid : Nat) : Engine M :=
   if e.err.isSome then e else
   let e0 := setStrat e r (fun s => { s with increased := s.increased + 1 })
-  let e0 := (List.range e0.cfg.routes.length).foldl (fun e r' => if r' = r then e else detectModifications e r') e0
+  let e0 := broadcast e0 r
   let e1 := runHook e0 r "on_increased_position" (u.onIncreased e0 r oid)
   detectModifications e1 r
 
 def onReducedPosition (e : Engine M) (r : Nat) (oid : Nat) : Engine M :=
   if e.err.isSome then e else
   let e0 := setStrat e r (fun s => { s with reduced := s.reduced + 1 })
-  let e0 := (List.range e0.cfg.routes.length).foldl (fun e r' => if r' = r then e else detectModifications e r') e0
+  let e0 := broadcast e0 r
   let e1 := runHook e0 r "on_reduced_position" (u.onReduced e0 r oid)
   detectModifications e1 r
 
@@ -367,6 +383,16 @@ def onUpdatedPosition (e : Engine M) (r : Nat) (oid : Nat) : Engine M :=
   else if after > before then onIncreasedPosition u e r oid
   else onReducedPosition u e r oid
 
+/-- what follows the account update of an executed order: the trade counter and the position hooks of the
+    route that trades the symbol (`tradesBefore` = closed trades before the fill) -/
+def afterFill (e1 : Engine M) (sym tradesBefore id : Nat) : Engine M :=
+  match routeOfSym e1 sym with
+  | none => e1
+  | some r =>
+    let e3 := if e1.w.trades.length > tradesBefore then
+        setStrat e1 r (fun s => { s with tradesCount := s.tradesCount + (e1.w.trades.length - tradesBefore) }) else e1
+    onUpdatedPosition u e3 r id
+
 /-- `Order.execute` including the strategy callback -/
 def executeOrder (e : Engine M) (id : Nat) : Engine M :=
   if e.err.isSome then e else
@@ -374,12 +400,7 @@ def executeOrder (e : Engine M) (id : Nat) : Engine M :=
   if o.status ≠ .active then e else
   let tradesBefore := e.w.trades.length
   let e1 := logE { e with w := Acc.execute e.w id } (Event.fill id e.time o.price o.qty)
-  let e4 := match routeOfSym e1 o.sym with
-    | none => e1
-    | some r =>
-      let e3 := if e1.w.trades.length > tradesBefore then
-          setStrat e1 r (fun s => { s with tradesCount := s.tradesCount + (e1.w.trades.length - tradesBefore) }) else e1
-      onUpdatedPosition u e3 r id
+  let e4 := afterFill u e1 o.sym tradesBefore id
   if e4.err.isSome then e4 else
   let p := posOf e4 o.sym
   logE e4 (Event.pos o.sym p.qty p.entry)
